@@ -78,8 +78,8 @@ func c11SchemeScenarios(thorough bool) []sched.Scenario {
 			return b
 		}
 		scs = append(scs,
-			sched.Scenario{Name: "kem/" + name + "/Decapsulate||Decapsulate", Setup: fresh, Threads: []func(interface{}) interface{}{decap(ct1), decap(ct2)}},
-			sched.Scenario{Name: "kem/" + name + "/Encapsulate||Decapsulate||Public", Setup: fresh, Threads: []func(interface{}) interface{}{encap, decap(ct1), pub}})
+			sched.Scenario{Cost: 40, Name: "kem/" + name + "/Decapsulate||Decapsulate", Setup: fresh, Threads: []func(interface{}) interface{}{decap(ct1), decap(ct2)}},
+			sched.Scenario{Cost: 40, Name: "kem/" + name + "/Encapsulate||Decapsulate||Public", Setup: fresh, Threads: []func(interface{}) interface{}{encap, decap(ct1), pub}})
 	}
 	type sigShared struct {
 		pk sign.PublicKey
@@ -128,8 +128,8 @@ func c11SchemeScenarios(thorough bool) []sched.Scenario {
 			return b
 		}
 		scs = append(scs,
-			sched.Scenario{Name: "sign/" + name + "/Sign||Sign", Setup: fresh, Threads: []func(interface{}) interface{}{signer(m1), signer(m2)}},
-			sched.Scenario{Name: "sign/" + name + "/Sign||Verify||Public", Setup: fresh, Threads: []func(interface{}) interface{}{signer(m2), verify, pub}})
+			sched.Scenario{Cost: 40, Name: "sign/" + name + "/Sign||Sign", Setup: fresh, Threads: []func(interface{}) interface{}{signer(m1), signer(m2)}},
+			sched.Scenario{Cost: 40, Name: "sign/" + name + "/Sign||Verify||Public", Setup: fresh, Threads: []func(interface{}) interface{}{signer(m2), verify, pub}})
 	}
 	return scs
 }
